@@ -1356,6 +1356,23 @@ impl<'a, const C: usize, const R: usize, T: 'a + Copy + std::fmt::Debug> Layout<
         let custom = self.process_extra_waitings(custom);
         self.process_sequence_custom(custom)
     }
+    /// Only a limited number of sequences (macros) can run at the same time. Starting one more
+    /// stops the oldest one. The keys that the stopped sequence was still going to release, and
+    /// may therefore be holding, are released now so that they do not stay pressed forever.
+    fn release_keys_of_evicted_sequence(&mut self, evicted: Option<SequenceState<'a, T>>) {
+        let Some(evicted) = evicted else {
+            return;
+        };
+        if let Some(keycode) = evicted.tapped {
+            self.states.retain(|s| s.seq_release(keycode).is_some());
+        }
+        for event in evicted.remaining_events {
+            if let SequenceEvent::Release(keycode) = event {
+                self.states.retain(|s| s.seq_release(*keycode).is_some());
+            }
+        }
+    }
+
     /// Takes care of draining and populating the `active_sequences` ArrayDeque,
     /// giving us sequences (aka macros) of nearly limitless length!
     fn process_sequences(&mut self) {
@@ -1898,12 +1915,13 @@ impl<'a, const C: usize, const R: usize, T: 'a + Copy + std::fmt::Debug> Layout<
                 return custom;
             }
             Sequence { events } => {
-                self.active_sequences.push_back(SequenceState {
+                let evicted = self.active_sequences.push_back(SequenceState {
                     cur_event: None,
                     delay: 0,
                     tapped: None,
                     remaining_events: events,
                 });
+                self.release_keys_of_evicted_sequence(evicted);
                 if !is_oneshot {
                     self.oneshot
                         .handle_press(OneShotHandlePressKey::Other(coord));
@@ -1911,12 +1929,13 @@ impl<'a, const C: usize, const R: usize, T: 'a + Copy + std::fmt::Debug> Layout<
                 self.rpt_action = Some(action);
             }
             RepeatableSequence { events } => {
-                self.active_sequences.push_back(SequenceState {
+                let evicted = self.active_sequences.push_back(SequenceState {
                     cur_event: None,
                     delay: 0,
                     tapped: None,
                     remaining_events: events,
                 });
+                self.release_keys_of_evicted_sequence(evicted);
                 let _ = self.states.push(RepeatingSequence {
                     sequence: events,
                     coord,
